@@ -340,9 +340,12 @@ def check(model, rep, tier):
             witness='two different functions with equal names / recycled ids')
   base = model.cls(CACHE, '_TransformedFnCache')
   binit = base.methods['__init__']
-  ok = any(isinstance(n, ast.Assign) and core.norm(n.targets[0]) == 'self._cache'
-           and core.norm(n.value) == 'weakref.WeakKeyDictionary()'
-           for n in ast.walk(binit.node))
+  # the table, by role: the attribute __init__ binds to the weak dictionary
+  tabs = [core.norm(n.targets[0]) for n in ast.walk(binit.node) if isinstance(n, ast.Assign)
+          and core.norm(n.targets[0]).startswith('self.') and
+          core.norm(n.value) == 'weakref.WeakKeyDictionary()']
+  ok = len(tabs) == 1
+  TAB = tabs[0] if tabs else 'self._cache'
   rep.check(ok, 'CACHE-KEY', '%s:weak-dictionary' % binit.site,
             'code objects must be held weakly, so that a redefined / collected '
             'function is never served stale code', line=binit.node.lineno)
@@ -354,18 +357,18 @@ def check(model, rep, tier):
     # through a local or directly
     kcall = 'self._get_key(%s)' % fi.params()[0]
     uses = [c.args[0] for c in ast.walk(fi.node) if isinstance(c, ast.Call) and
-            core.norm(c.func) in ('self._cache.get', 'self._cache.setdefault') and c.args]
+            core.norm(c.func) in (TAB + '.get', TAB + '.setdefault') and c.args]
     uses += [n.slice for n in ast.walk(fi.node) if isinstance(n, ast.Subscript) and
-             core.norm(n.value) == 'self._cache']
+             core.norm(n.value) == TAB]
     ok = bool(uses) and all(tpl.xnorm(fi, u, u) == kcall for u in uses)
     rep.check(ok, 'CACHE-KEY', '%s:uses-key-function' % fi0.site,
               '%s must look the entity up under _get_key(entity)' % m,
               line=fi0.node.lineno)
     # stores into the cache dictionary, with the condition they happen under
     stores = [a for a in ast.walk(fi.node) if isinstance(a, ast.Assign) and any(
-        isinstance(t, ast.Subscript) and core.norm(t.value) == 'self._cache'
+        isinstance(t, ast.Subscript) and core.norm(t.value) == TAB
         for t in a.targets)] + [c for c in ast.walk(fi.node) if isinstance(c, ast.Call)
-                                and core.norm(c.func) == 'self._cache.setdefault']
+                                and core.norm(c.func) == TAB + '.setdefault']
     if m == 'has':
       rep.check(not stores, 'CACHE-LOCK', '%s:probe-is-read-only' % fi0.site,
                 'has() is the lock-free probe: it must not create (or replace) a '
